@@ -1,4 +1,5 @@
-from formulae.terms.terms import Model
+from formulae.terms.terms import Model, GroupSpecificTerm
+from formulae.terms.variable import Variable
 
 from formulae.scanner import Scanner
 from formulae.parser import Parser
@@ -24,7 +25,17 @@ def model_description(formula):
 
     description = Resolver(Parser(Scanner(formula).scan()).parse()).resolve()
 
-    if isinstance(description, Model):
-        return description
+    if not isinstance(description, Model):
+        description = Model(description)
 
-    return Model(description)
+    # 'y[level] ~ x' selects a level of the response. In a predictor the level would be ignored
+    for term in description.terms:
+        parts = [term.expr, term.factor] if isinstance(term, GroupSpecificTerm) else [term]
+        for part in parts:
+            for component in getattr(part, "components", []):
+                if isinstance(component, Variable) and component.reference is not None:
+                    raise ValueError(
+                        f"'{component.name}[{component.reference}]': the subset notation is only "
+                        "available for the response"
+                    )
+    return description
